@@ -90,6 +90,17 @@ def _mentions_period(e):
                for x in ast.walk(e))
 
 
+def _inline_local(fn, e):
+    """a local bound exactly once (`base = ast.U[ast.unit]`) stands for the expression it was bound to"""
+    if fn is None or not isinstance(e, ast.Name):
+        return e
+    ds = [st for st in ast.walk(fn) if isinstance(st, ast.Assign) and any(isinstance(t, ast.Name) and t.id == e.id for t in st.targets)]
+    others = [x for x in ast.walk(fn) if isinstance(x, ast.Name) and x.id == e.id and isinstance(x.ctx, ast.Store)]
+    if len(ds) == 1 and len(others) == 1 and len(ds[0].targets) == 1 and _is_unit_entry(ds[0].value):
+        return ds[0].value
+    return e
+
+
 def check_exact_lifts(ix, rep):
     """a duration given by the user as a float (the sampling period: 0.1 with unit s) is a *decimal*; the float holds the nearest binary
     fraction.  Scaled to the base unit first (0.1 * 10**9 rounds to exactly 100000000.0) and lifted to a Fraction afterwards it is the
@@ -112,7 +123,7 @@ def check_exact_lifts(ix, rep):
             fn = owner.get(id(c))
             sym = fn.name if fn is not None else '<module>'
             slot = 'lift:%s' % ast.unparse(c)[:50]
-            args = list(c.args)
+            args = [_inline_local(fn, a) for a in c.args]
             why = None
             if len(args) == 2 and all(_is_unit_entry(a) or (isinstance(a, ast.Constant) and isinstance(a.value, int)) for a in args):
                 ok = 'ratio of two unit-table entries'
